@@ -218,7 +218,7 @@ ASSUMPTIONS = ['dense vector maps of at most 2^24 slots in the model (object-siz
 NOT_DECIDED = ['file-backed persistence, real mremap', 'switch_to_dense loop body, assure_block', 'NodeLocationsForWays', 'dump_as_array']
 LEVEL_TEXT = ('Proof for the in-memory kernels: VectorBasedDenseMap set/get/get_noexcept against the abstract map observed at an arbitrary id (set updates exactly one id, lookups return '
               'exactly the stored value and report never-set ids as not found / empty); FlexMem set_sparse/set/get/get_noexcept against an abstract view that follows the active '
-              'representation, including the call in which the index switches itself from sparse to dense; the block/offset split of the dense store is injective. VectorBasedSparseMap get/get_noexcept on the sorted pair vector, relative to the std::lower_bound contract: '
+              'representation, including the call in which the index switches itself from sparse to dense; the block/offset split of the dense store is injective. mmap_vector_base::reserve (DenseMmapArray, DenseFileArray) keeps every element and fills every new one with the empty value, relative to contracts of the mapping and std::fill. VectorBasedSparseMap get/get_noexcept on the sorted pair vector, relative to the std::lower_bound contract: '
               'an id that is in the map is found and gets its own value, any other id is reported as not found (never the value of a neighbour).')
 LEVEL_NOTE = ('Trusted: CBMC, extraction rules; containers are abstracted (array+size for the dense vector with an assumed resize contract; for FlexMem the containers are observed only at a ghost id through '
               'assumed contracts of emplace_back, set_dense/get_dense/get_sparse and switch_to_dense). Not decided: persistence, mremap, std::sort/std::lower_bound themselves, dump_as_array, switch_to_dense body, NodeLocationsForWays.')
